@@ -190,19 +190,24 @@ func runC18(r *mon.Run, replay string) {
 		return
 	}
 
-	phaseLimits(r)
-	phaseDropLeak(r)
-	phaseStall(r)
-	phaseCaps(r)
-	phaseShutdown(r)
-	phaseSyncStalls(r)
+	timed := func(name string, fn func()) {
+		t0 := time.Now()
+		fn()
+		r.Count("phase_wall_ms."+name, int(time.Since(t0)/time.Millisecond))
+	}
+	timed("limits", func() { phaseLimits(r) })
+	timed("dropleak", func() { phaseDropLeak(r) })
+	timed("stall", func() { phaseStall(r) })
+	timed("caps", func() { phaseCaps(r) })
+	timed("shutdown", func() { phaseShutdown(r) })
+	timed("syncstalls", func() { phaseSyncStalls(r) })
 	join := startDeadlockScenarios(r)
-	phaseRHP(r)
-	phaseRHPStalls(r)
-	phaseWallet(r)
-	phaseWalletImmediate(r)
-	phaseTG(r)
-	join()
+	timed("rhp", func() { phaseRHP(r) })
+	timed("rhpstalls", func() { phaseRHPStalls(r) })
+	timed("wallet", func() { phaseWallet(r) })
+	timed("wallet_immediate", func() { phaseWalletImmediate(r) })
+	timed("tg", func() { phaseTG(r) })
+	timed("deadlock_join", join)
 	finalInventory(r)
 
 	r.Floor("limit.bursts", 20)
@@ -228,6 +233,27 @@ func runC18(r *mon.Run, replay string) {
 func finalInventory(r *mon.Run) {
 	inv, ok := limitlab.Settle(settleBound/3, nil, func(g []limitlab.Goroutine) bool { return len(g) == 0 })
 	r.Count("final.coreutils_goroutines", len(inv))
+	if left, ok := limitlab.SettleTransports(0, settleBound/2); !ok {
+		r.Count("final.transport_goroutines", len(left))
+		r.Violation("transport-goroutines-left-behind:final", fmt.Sprintf("%d multiplexer goroutines are still running after every syncer and server was closed and every harness peer hung up: transports that coreutils created were never closed", len(left)), map[string]any{"phase": "final"}, limitlab.Stacks(left, 3))
+	}
+	all := limitlab.AllGoroutines()
+	r.Count("final.all_goroutines", len(all))
+	by := map[string]int{}
+	for _, g := range all {
+		k := g.CreatedBy
+		if len(g.Funcs) > 0 {
+			k = g.Funcs[0] + " <- " + k
+		}
+		by[k]++
+	}
+	top := map[string]int{}
+	for k, n := range by {
+		if n >= 5 {
+			top[k] = n
+		}
+	}
+	r.Extra("goroutines_left_at_end_by_origin", top)
 	if !ok {
 		r.Violation("goroutine-left-behind:final", "coreutils goroutines are still alive after every syncer, server, wallet and thread group was closed and every peer disconnected", map[string]any{"phase": "final"}, limitlab.Keys(inv))
 	}
